@@ -9,6 +9,7 @@ Property theorems only; proofs of the lemmas are in `Lemmas/Diff.lean`.
 import AnnetModel.Lemmas.Diff
 import AnnetModel.Lemmas.DiffText
 import AnnetModel.Lemmas.DiffWhole
+import AnnetModel.Lemmas.DiffTextStrict
 
 /-! OBLIGATIONS
 Annet.Diff.C03_proj_new
@@ -20,6 +21,7 @@ Annet.Diff.C03_strip_idempotent
 Annet.Diff.C03_make_diff_ops_exact
 Annet.Diff.C03_make_diff_projections
 Annet.Diff.C03_diff_text_roundtrip
+Annet.Diff.C03_diff_text_roundtrip_strict
 Annet.Diff.C03_diff_text_injective
 Annet.Diff.C03_stripped_diff_has_text
 Annet.Diff.C03_pre_text_roundtrip
@@ -124,6 +126,14 @@ theorem C03_diff_text_roundtrip (f : DiffText.Fmt) (d : List DiffText.SItem)
     (hf : DiffText.FmtOK f) (hd : DiffText.RowsOK f d) :
     DiffText.parseSigned f (DiffText.diffText f d) = some d :=
   DiffText.diff_text_roundtrip f d hf hd
+
+/-- The same for the STRICT reader (`Spec/DiffTextStrict.lean`, the twin of the harness's reader), which also requires every
+block-end line (`}`) to close a block of its own sign and level: the text is well nested on the old and on the new side.
+(The lenient reader accepts a closing line of any sign; kernel-checked example in `Lemmas/DiffTextStrict.lean`.) -/
+theorem C03_diff_text_roundtrip_strict (f : DiffText.Fmt) (d : List DiffText.SItem)
+    (hf : DiffText.FmtOK f) (hd : DiffText.RowsOK f d) :
+    DiffText.parseSignedStrict f (DiffText.diffText f d) = some d :=
+  DiffText.diff_text_roundtrip_strict f d hf hd
 
 /-- Hence two diffs with the same text are the same diff (signs, rows, nesting). -/
 theorem C03_diff_text_injective (f : DiffText.Fmt) (d1 d2 : List DiffText.SItem) (hf : DiffText.FmtOK f)
